@@ -185,6 +185,8 @@ type Step struct {
 	// PredictAdmission enables the exact admission model (needs retention off and
 	// strictly increasing received_at).
 	PredictAdmission bool
+	// EffBatch overrides the effective batch (pull API layer: min(request, max_batch)); 0 = store cap.
+	EffBatch int
 }
 
 func effTTL(d time.Duration) time.Duration {
@@ -325,6 +327,7 @@ func CheckStep(st Step) []Obs {
 		}
 	case KDequeue:
 		if !failed {
+			out = append(out, checkVisibility(st)...)
 			seen := map[string]bool{}
 			ttl := effTTL(op.Deq.LeaseTTL)
 			if len(res.Items) > effBatch(op.Deq.Batch) {
@@ -572,9 +575,6 @@ func CheckStep(st Step) []Obs {
 		}
 		add(propFor("C02"), cls, fmt.Sprintf("%s (result %s): message %s disappeared", op.Kind, res.Err, rowBrief(r0)), extra, id)
 	}
-	if len(evicted) > evictOK {
-		add("C12", "evicted_more_than_stored", fmt.Sprintf("%d queued messages evicted for %d stored", len(evicted), evictOK), nil)
-	}
 	newGenerated := 0
 	for id, r1 := range s1 {
 		if _, ok := s0[id]; ok {
@@ -613,6 +613,82 @@ func CheckStep(st Step) []Obs {
 	return out
 }
 
+// SweepGranularity is the documented lease-sweep granularity of the SQLite store.
+const SweepGranularity = 10 * time.Millisecond
+
+// checkVisibility is the independent ready-set model of C05: with a single
+// client the set of messages a dequeue must offer is known exactly.
+//
+//	must = queued and due, or leased with lease_until <= now - 10ms
+//	may  = leased with now-10ms < lease_until <= now (SQLite sweep throttle; empty on memory),
+//	       plus due messages that a retention prune may remove inside this very call
+//	min(b,|must|) <= returned <= min(b,|must|+|may|)
+func checkVisibility(st Step) []Obs {
+	op, res, now := st.Op, st.Res, st.Now
+	b := st.EffBatch
+	if b == 0 {
+		b = effBatch(op.Deq.Batch)
+	}
+	must, may := 0, 0
+	var mustIDs []string
+	for id, r := range st.S0 {
+		if op.Deq.Route != "" && r.Route != op.Deq.Route {
+			continue
+		}
+		if op.Deq.Target != "" && r.Target != op.Deq.Target {
+			continue
+		}
+		due := false
+		soft := false
+		switch {
+		case r.State == queue.StateQueued && r.NextRunAt <= now:
+			due = true
+		case leaseExpired(r, now):
+			due = true
+			if st.Backend == "sqlite" && r.LeaseUntil > now-int64(SweepGranularity) {
+				soft = true
+			}
+		}
+		if !due {
+			continue
+		}
+		asQueued := r
+		if r.State == queue.StateLeased {
+			asQueued = released(r, now)
+		}
+		if pruneEligible(st.Cfg, asQueued, now, st.S0) {
+			soft = true
+		}
+		if soft {
+			may++
+		} else {
+			must++
+			mustIDs = append(mustIDs, id)
+		}
+	}
+	n := len(res.Items)
+	lo, hi := minI(b, must), minI(b, must+may)
+	var out []Obs
+	if n < lo {
+		sort.Strings(mustIDs)
+		o := obs("C05", "dequeue_incomplete", st.Backend, op, fmt.Sprintf("dequeue(route=%q target=%q batch=%d, effective %d) returned %d items, %d ready messages must be offered", op.Deq.Route, op.Deq.Target, op.Deq.Batch, b, n, must),
+			map[string]string{"over_100": fmt.Sprint(b > 100)})
+		o.Wit = map[string]any{"must": mustIDs, "returned": res.ItemIDs, "now": now}
+		out = append(out, o)
+	}
+	if n > hi {
+		out = append(out, obs("C05", "dequeue_overfull", st.Backend, op, fmt.Sprintf("dequeue returned %d items, at most %d are ready (batch %d)", n, must+may, b), nil))
+	}
+	return out
+}
+
+func minI(a, b int) int {
+	if a < b {
+		return a
+	}
+	return b
+}
+
 // checkAdmission is the independent admission reference model.
 func checkAdmission(st Step, evicted []vlib.Row) []Obs {
 	var out []Obs
@@ -627,6 +703,9 @@ func checkAdmission(st Step, evicted []vlib.Row) []Obs {
 		return nil // lifted above max_depth by operator requeue/resume: excluded by the quantifier
 	}
 	ok := res.Err == "ok"
+	if ok && len(evicted) > n {
+		add("evicted_more_than_stored", fmt.Sprintf("%d queued messages evicted for %d stored", len(evicted), n), nil)
+	}
 	// duplicate ids (an existing id counts unless the old message is evicted by this call)
 	dup := false
 	seen := map[string]bool{}
